@@ -27,7 +27,8 @@ RULE = ('case = (mode, setting, S): mode "include" writes `#include S<ext>` (ext
         'directory; distinct by (mode, setting, nested, ext, S).'
         ' Plus strings that mean something to a shell, to Windows or to os.path helpers: ~ and ~/... for every file under the redirected $HOME, backslash spellings of every escaping relative path, $HOME / ${HOME} / %HOME%, glob characters, file:// - none of them names a file inside a root.'
         ' The layout has sibling directories differing from a root only in letter case (Proj, PROJ, Libs, Carts, cartsx); the special strings include dot-encoded (Lua package style) absolute and escaping relative paths of every file.'
-        " Include cases are also run from the parent of the cart's directory (relative cart name) and from the layout root.")
+        " Include cases are also run from the parent of the cart's directory (relative cart name) and from the layout root."
+        ' Settings qdir/qdir_rel: the project directory has a `?` in its name (reduced string space), with canaries where a wrong substitution of that `?` would land.')
 ASSUMPTIONS = ['Linux path conventions; of the three PICO-8 cart folders only ~/.lexaloffle/pico-8/carts is exercised',
                'a cart lying in a directory that merely shares a name prefix with the carts folder (cartsX) is not "in the '
                'carts folder": its include root is its own directory',
